@@ -15,6 +15,7 @@ import (
 
 	. "verifh/lib"
 
+	"github.com/cuteLittleDevil/go-jt808/protocol/model"
 	"github.com/cuteLittleDevil/go-jt808/protocol/utils"
 	"github.com/cuteLittleDevil/go-jt808/shared/consts"
 )
@@ -22,6 +23,17 @@ import (
 func main() { Main("C07", c07) }
 
 var violCount = map[string]int{}
+
+// inModel: the message types whose Coq model exists (coq/Model/Msg_*.v, reachable from the oracle's registry);
+// for these every generated value is also a correspondence case in both directions.  The others are checked by
+// the direct oracle only.
+var inModel = map[string]bool{
+	"T0x0001": true, "T0x0002": true, "T0x0100": true, "T0x0102": true, "T0x0800": true, "T0x0805": true, "T0x1003": true,
+	"T0x1005": true, "T0x1205": true, "T0x1206": true, "T0x1210": true, "T0x1211": true, "T0x1212": true,
+	"P0x8001": true, "P0x8003": true, "P0x8100": true, "P0x8103": true, "P0x8104": true, "P0x8800": true, "P0x8801": true,
+	"P0x9003": true, "P0x9101": true, "P0x9102": true, "P0x9105": true, "P0x9201": true, "P0x9202": true,
+	"P0x9205": true, "P0x9206": true, "P0x9207": true, "P0x9208": true, "P0x9212": true,
+}
 
 func viol(c *Ctx, v Violation) {
 	violCount[v.Signature]++
@@ -81,9 +93,58 @@ func c07(c *Ctx) {
 			}
 		}
 	}
+	signIDFinding(c, g)
 	paramsSweep(c, g)
 	helpers(c, g)
 	gbkSweep(c)
+}
+
+// signIDFinding: the recorded finding C07/sign-id-leading-nul.  Alarm-sign terminal ids that begin with NUL are in
+// the property's domain (they fit, no trailing NUL) but P9208AlarmSign.parse strips NUL on both sides.  The class is
+// kept out of the correspondence stream (the model carries the as-is behaviour, the required one is m_9208_required)
+// and exercised here; while the implementation still loses the byte the violation carries the finding's signature.
+func signIDFinding(c *Ctx, g *Gen) {
+	for _, name := range []string{"P0x9208", "T0x1210"} {
+		t := BodyTypeByName(name)
+		for _, dial := range t.Dialects() {
+			for i := 0; i < 6; i++ {
+				v, _ := g.Value(t, 2, consts.ActiveSafetyType(dial))
+				idLen := 7
+				if dial == 2 || dial == 3 || dial == 5 {
+					idLen = 30
+				}
+				id := append([]byte{0}, g.Bytes(1+c.Rng.Intn(idLen-1))...)
+				if id[len(id)-1] == 0 {
+					id[len(id)-1] = 0x44
+				}
+				switch x := v.(type) {
+				case *model.P0x9208:
+					x.P9208AlarmSign.TerminalID = string(id)
+				case *model.T0x1210:
+					x.P9208AlarmSign.TerminalID = string(id)
+				}
+				before := DumpHandler(v)
+				b, p := SafeEncode(v)
+				reqv := fmt.Sprintf("benc %s %d %d %s", t.Name, 2, dial, before)
+				c.Eval(reqv, true)
+				c.Count("finding-class:sign-id-leading-nul")
+				if p {
+					viol(c, Violation{Signature: "C07/encode-panic/" + t.Name, What: "Encode panicked on an in-domain value", Input: reqv, Observed: "panic", Required: "bytes"})
+					continue
+				}
+				h2 := t.New(consts.ActiveSafetyType(dial))
+				out := ParseInto(h2, 2, Exact(b))
+				if out != "ok" || DumpHandler(h2) != before {
+					got := out
+					if out == "ok" {
+						got = DumpHandler(h2)
+					}
+					viol(c, Violation{Signature: "C07/sign-id-leading-nul", What: "an alarm-sign terminal id that begins with NUL does not survive Encode/Parse (bytes.Trim strips both sides)",
+						Input: reqv, Observed: Trunc(got, 1500), Required: Trunc(before, 1500)})
+				}
+			}
+		}
+	}
 }
 
 func oneValue(c *Ctx, t *BodyType, ver, dial int, v BodyHandler) {
@@ -120,11 +181,13 @@ func oneValue(c *Ctx, t *BodyType, ver, dial int, v BodyHandler) {
 		}
 	}
 	// correspondence: bytes -> value -> bytes, and value -> bytes -> value
-	if len(b) <= 4000 {
+	if inModel[t.Name] && len(b) <= 4000 {
 		c.Do(req, len(b) > 0)
 		c.Do(reqv, len(b) > 0)
+		c.Count("corr:" + t.Name)
 	} else {
 		c.Eval(req, true)
+		c.Count("direct-only:" + t.Name)
 	}
 }
 
@@ -181,8 +244,12 @@ func paramsSweep(c *Ctx, g *Gen) {
 			continue
 		}
 		b2, _ := SafeEncode(h)
-		req := "brt P0x8103 2 0 " + Hx(body)
-		c.Do(req, true)
+		req := "brt P0x8103 2 0 " + Hx(body) + gbkArg(textLeaves(h))
+		if inModel[t.Name] {
+			c.Do(req, true)
+		} else {
+			c.Eval(req, true)
+		}
 		if !bytes.Equal(b2, body) {
 			viol(c, Violation{Signature: fmt.Sprintf("C07/params-dropped/%#x", id), What: "a parameter the parser accepts is not stored: re-encoding loses it",
 				Input: req, Observed: Hx(b2), Required: Hx(body)})
